@@ -19,6 +19,36 @@ CHECKS = {
         design="6/C14"),
 }
 
+def chk(text, technique, design, note=None):
+    d = dict(text=text, technique=technique, design=design)
+    if note:
+        d["note"] = note
+    return d
+
+CORR = " Tie: the executable model and the real code (in-process, -tags verif) are run on the same generated inputs on every run and the canonical dumps are diffed; the profile tables the model uses are regenerated from the live tables by reflection."
+CHECKS.update({
+    "C01": chk("Partial proof. Proved in Lean: the buffered reader model refines consumption from a list for every program and every read schedule (no over-read, fuel-bounded loops), Known()/validateFieldDef rejection lemmas, and kernel-checked well-formedness of the regenerated profile (gen_wf). Not yet proved: the global 'no panic outcome is reachable' theorem (validate_sound) — every Go panic site is an explicit panic outcome of the model and is checked by the correspondence run under recover with a per-case timeout." + CORR,
+               "Lean 4 proof (refinement of buffered reads; decidable profile well-formedness by kernel evaluation) + differential correspondence incl. single-field definition sweep", "6/C01"),
+    "C02": chk("Partial proof. Proved: for every definition base type (enum, byte, (u/s)int8/16/32, z-types, string), both byte orders and every struct-field width the profile allows, parseFitField stores exactly the value the wire bytes denote (two's complement, value-preserving widening) — signed_field_denotes, unsigned_field_denotes, string_field_denotes, widen_signed. The record machine stepItem shares these functions with the byte parser; the framing theorem connecting them is checked by execution (wire op, SPEC=ok) and not yet proved." + CORR,
+               "Lean 4 proof of per-field value semantics + executable record machine + differential correspondence", "6/C02"),
+    "C03": chk("Proof: route_spec — folding the container's add over any message sequence leaves in each slot exactly the (expanded) messages of the type the slot holds, in stream order (slice) or the last one (pointer), other types have no effect; common_first; kernel-checked facts over the regenerated tables: RoutersWF, init_rejects (all 256 file-type values), accessor_exact, container_of_type_injective." + CORR,
+               "Lean 4 proof by induction over the message list + decide over the regenerated 256-entry tables + differential correspondence of covering interleavings", "6/C03"),
+    "C10": chk("Proof: run_refines — for every program of the three-phase decoder language and every reader (any chunk schedule, data delivered together with the error) the buffered interpreter (model of fill/readFull/io.ReadFull/io.CopyN) returns the outcome of the list-consuming specification run, pulls at least the bytes consumed and never past the end of the data area; corollaries decode_eq_spec, chunk_independent, never_overreads. Exact consumption on success is checked by the harness oracle on every case (theorem pending)." + CORR,
+               "Lean 4 refinement proof (induction over programs and read schedules) + differential correspondence over chunk schedules behind a counting reader", "6/C10"),
+    "C11": chk("Partial proof. Proved: failed buffered reads map to unexpected-EOF / reader error / format error and never to a clean EOF; every early exit of the record phase is an error or panic by construction of the program type; a short trailer is an error; DecodeChained reports every failing decode except a clean end exactly on a file boundary. The all-offsets statement (cut_is_error) is checked exhaustively per run by the harness oracle over every cut and fault offset of the sampled streams; its Lean proof is pending." + CORR,
+               "Lean 4 proof (typed early exits, chained loop lemmas) + exhaustive cut/fault enumeration per stream", "6/C11"),
+    "C12": chk("Proof: compressed_rule (5-bit offset with 32 s rollover = tsSpec), compressed_keeps_inv, run_accumulates (any run of compressed records = scan of tsSpec), datetime_decode, explicit_rebases, reference_only_from_timestamp_field, local_wallclock, no_reference_skips — about the functions the decoder model and the record machine call for every time field and compressed header." + CORR,
+               "Lean 4 proof (omega on modular arithmetic, induction over offset lists) + differential correspondence of timestamp sequences", "6/C12"),
+    "C13": chk("Proof over the record machine: definition_wins, redefinition_is_local, undefined_slot_is_error (both header forms), header_bits (all 256 header bytes), defs_length." + CORR,
+               "Lean 4 proof (list update lemmas, decide over 256 header bytes) + differential correspondence of redefinition interleavings", "6/C13"),
+    "C15": chk("Proof: gen_wf — kernel evaluation of the decidable well-formedness predicate over every entry of the regenerated tables (distinct struct index of the Go type the base type/array flag/kind call for, constructor value = that type's invalid value, sizes fit one byte, every struct field named by exactly one entry, known ⇒ type+constructor+row, container members known), with readable projections entry_slot, entry_invalid, known_has_tables, containers_known. The SDK-assignment clause is not checked (no 21.115 workbook offline)." + CORR,
+               "Lean 4 decide +kernel over tables regenerated by reflection on every run + differential correspondence of every profile entry", "6/C15"),
+    "C16": chk("Proof: options_transparent (error, panic, bytes pulled, File apart from the two lists, accumulators are identical under every option set — the decoder program does not take the options), logger_irrelevant, lists_only_when_asked, bump_counts (reported count = number of occurrences counted), bump_keys_nodup, unknown_lists_sorted (insertion sort is sorted and a permutation)." + CORR,
+               "Lean 4 proof (structure of finalize, counting and sorting lemmas) + differential correspondence under all 8 option sets", "6/C16"),
+    "C18": chk("Partial proof with recorded findings. Proved: invalid_source_untouched, valid_source_copied, csd_speed_slice, csd_distance_partial, accumulate_spec (correct accumulators), gear_bytes, score_halves, event_invalid_untouched, containers_expand, gen_component_fields_exist; counterexample theorems for the three known findings D10 (distance high nibble lost), D11 (accumulator mask 0), D12 (package-level accumulator lifetime)." + CORR,
+               "Lean 4 proof + counterexample theorems + differential correspondence incl. source-value sweeps", "6/C18"),
+})
+
 NOT_YET = {}
 
 def main():
